@@ -68,9 +68,12 @@ def ensure_driver():
 
 
 class Lock:
+    def __init__(self, name='lock'):
+        self.name = name
+
     def __enter__(self):
         os.makedirs(CACHE, exist_ok=True)
-        self.fh = open(os.path.join(CACHE, 'lock'), 'w')
+        self.fh = open(os.path.join(CACHE, self.name), 'w')
         fcntl.flock(self.fh, fcntl.LOCK_EX)
         return self
 
@@ -92,6 +95,11 @@ def _prune():
         p = os.path.join(CACHE, e)
         if os.path.isdir(p) and e.startswith('tmp-') and time.time() - os.path.getmtime(p) > 3600:
             shutil.rmtree(p, ignore_errors=True)
+        elif e.startswith('lock-') and time.time() - os.path.getmtime(p) > 3600:
+            try:
+                os.remove(p)
+            except OSError:
+                pass
 
 
 def run_driver(src_dir, selection_args, out_dir, extra_env=None):
@@ -123,8 +131,10 @@ def facts_dir(repo='/repo', selection='ws'):
     """returns (dir, meta) with facts of the given tree, dumping if not cached"""
     with Lock():
         _prune()
-        th = tree_hash(repo)
-        key = 'facts-%s-%s-%s' % (selection, th, driver_hash())
+        ensure_driver()
+    th = tree_hash(repo)
+    key = 'facts-%s-%s-%s' % (selection, th, driver_hash())
+    with Lock('lock-' + key[-40:]):
         d = os.path.join(CACHE, key)
         meta_p = os.path.join(d, 'meta.json')
         if os.path.exists(meta_p):
